@@ -496,6 +496,19 @@ func (i *Install) performInstall(rel *release.Release, toBeAdopted kube.Resource
 		}
 	}
 
+	if i.Replace {
+		// replaceRelease leaves a failed last revision alone, so an earlier revision
+		// may still be marked deployed. Supersede it now that the install succeeded.
+		if deployed, err := i.cfg.Releases.DeployedAll(rel.Name); err == nil {
+			for _, d := range deployed {
+				d.SetStatus(release.StatusSuperseded, "superseded by new release")
+				if err := i.recordRelease(d); err != nil {
+					return rel, err
+				}
+			}
+		}
+	}
+
 	if len(i.Description) > 0 {
 		rel.SetStatus(release.StatusDeployed, i.Description)
 	} else {
